@@ -231,6 +231,10 @@ def generate(model: Model):
         pass
     try:
         mod, tree = _fresh("_expr")
+        for cdef in (x for x in tree.body if isinstance(x, ast.ClassDef) and x.name in ("BlockwiseHead", "BlockwiseTail")):
+            for fn in (x for x in cdef.body if isinstance(x, ast.FunctionDef) and x.name == "_simplify_down"):
+                # rename the override away: the class inherits the logical rule again
+                yield "mutant", f"revert:physical-twin-inherits-logical-rule:{cdef.name}", "R11h", mod.rel, _splice(mod.source, fn, ast.unparse(fn).replace("def _simplify_down(", "def _simplify_down_disabled(", 1).replace("\n", "\n    "))
         for fn in (x for x in tree.body if isinstance(x, ast.FunctionDef) and x.name == "_length_determining_input"):
             for st in (x for x in fn.body if isinstance(x, ast.If) and "_length_root" in ast.unparse(x.test)):
                 yield "mutant", "revert:len-of-label-matched-inputs", "R06g", mod.rel, _splice(mod.source, st.test, "True")
